@@ -60,6 +60,8 @@ func build(kind string) *env {
 		core = zapcore.NewCore(enc(), zapcore.Lock(newSink()), zap.DebugLevel)
 	case "combine":
 		core = zapcore.NewCore(enc(), zap.CombineWriteSyncers(newSink(), newSink()), zap.DebugLevel)
+	case "lockreflect":
+		core = zapcore.NewCore(enc(), zapcore.Lock(newSink()), zap.DebugLevel)
 	case "combine1": // a single destination must be serialised just like several
 		core = zapcore.NewCore(enc(), zap.CombineWriteSyncers(newSink()), zap.DebugLevel)
 	case "open", "open1":
@@ -92,7 +94,7 @@ func build(kind string) *env {
 	default:
 		panic(mc.ToolErr{Msg: "unknown sink kind " + kind})
 	}
-	e.logger = zap.New(core, zap.WithClock(e.clock))
+	e.logger = withBase(kind, zap.New(core, zap.WithClock(e.clock)))
 	return e
 }
 
@@ -119,6 +121,8 @@ func doOp(e *env, op byte, thr, idx int) {
 		}
 	case 'W':
 		e.logger.With(zap.String("ctx", "c"+strconv.Itoa(thr))).Info(m, zap.Int("n", thr))
+	case 'R': // child derived with a reflected field, entry with a reflected field
+		e.logger.With(zap.Reflect("req", yv{"r" + strconv.Itoa(thr)})).Info(m, zap.Reflect("v", yv{m}))
 	case 'F':
 		e.logger.Sugar().Infof("%s n=%d", m, thr)
 	case 'N':
@@ -141,13 +145,32 @@ func doOp(e *env, op byte, thr, idx int) {
 func isLog(op byte) bool { return op != 'Y' && op != 'K' }
 
 // expected line of one op, computed sequentially on a fresh logger with a plain sink
-func expectedLine(op byte, thr, idx int) string {
+func expectedLine(kind string, op byte, thr, idx int) string {
 	var buf bytes.Buffer
 	clock := hx.NewFixedClock()
 	core := zapcore.NewCore(zapcore.NewJSONEncoder(encCfg()), zapcore.AddSync(&buf), zap.DebugLevel)
-	e := &env{logger: zap.New(core, zap.WithClock(clock)), clock: clock}
+	e := &env{logger: withBase(kind, zap.New(core, zap.WithClock(clock))), clock: clock}
 	doOp(e, op, thr, idx)
 	return buf.String()
+}
+
+// yv is a reflected value whose encoding contains a scheduling point (its
+// MarshalJSON runs in the middle of the reflection encoder), so that state
+// shared between the reflection buffers of different loggers is exposed.
+type yv struct{ S string }
+
+func (v yv) MarshalJSON() ([]byte, error) {
+	vsched.Yield()
+	return []byte(strconv.Quote(v.S)), nil
+}
+
+// withBase gives the shared logger of the "lockreflect" family a context that
+// already holds a reflected field (the parent encoder then owns a reflection buffer).
+func withBase(kind string, l *zap.Logger) *zap.Logger {
+	if kind == "lockreflect" {
+		return l.With(zap.Reflect("svc", yv{"base"}))
+	}
+	return l
 }
 
 type driver struct {
@@ -164,7 +187,7 @@ func parseItem(item string) *driver {
 	for t, p := range d.progs {
 		for i := 0; i < len(p); i++ {
 			if isLog(p[i]) {
-				l := expectedLine(p[i], t+1, i)
+				l := expectedLine(d.kind, p[i], t+1, i)
 				if !strings.HasSuffix(l, "\n") || strings.Count(l, "\n") != 1 {
 					panic(mc.ToolErr{Msg: "reference line malformed: " + l})
 				}
@@ -268,7 +291,13 @@ func main() {
 	progs := []string{"I", "B", "S", "C", "W", "II", "IB", "BI", "SW", "CW", "WI"}
 	singles := []string{"I", "B", "W", "C"}
 	var items []string
-	for _, kind := range []string{"lock", "combine", "combine1", "open", "open1", "buffered", "tee", "teebuf"} {
+	for _, kind := range []string{"lock", "combine", "combine1", "open", "open1", "buffered", "tee", "teebuf", "lockreflect"} {
+		if kind == "lockreflect" {
+			for _, pq := range []string{"R;R", "R;I", "R;W", "RR;R", "R;R;R", "RI;R"} {
+				items = append(items, fmt.Sprintf("c04|%s|%d|%s", kind, pre, pq))
+			}
+			continue
+		}
 		for i := 0; i < len(progs); i++ {
 			for j := i; j < len(progs); j++ {
 				if !run.Thorough() && len(progs[i])+len(progs[j]) == 4 && (kind == "open" || kind == "open1" || kind == "combine1" || kind == "teebuf") {
